@@ -21,6 +21,7 @@ func init() {
 			g12HasUndefined(c)
 			g20AliasInjective(c)
 			g14ReservedBeforeNaming(c)
+			g25FieldRendering(c.Repo, c.Rep)
 			// which operator or helper is emitted for a component is decided by these predicates: accepting a type Go cannot
 			// compare or copy gives text that does not type-check
 			runG9(c, "equal.canEqual", "deepcopy.canCopy", "contains.canEqual", "derive.IsComparable")
